@@ -60,20 +60,24 @@ PcMatches(s, t, n) ==
             [] pc = "FutexBlocked" -> n = "FutexRet"
             [] OTHER -> n = pc
 
-\* an event of a thread that is inside pool code
+\* an event of a thread that is inside pool code: stuttering, or the pool call returns (and the thread runs on to
+\* its next point - possibly entering run() of the next chain link on ImmediateInvoker), and / or - last thing in the
+\* step, noted FuRunEnter - the pool code enters run() of a queued future
 PoolEv(ev, t) ==
   LET mine == SelectSeq(ev.r, LAMBDA x : x[1] # "n")
-      enters == SelectSeq(ev.r, LAMBDA x : x[1] = "FuRunEnter")
       base == [S EXCEPT !.out = <<>>, !.RV = 0]
       Cands == {base} \cup (IF PoolMayReturn(S, t) THEN {Settle(Pop(base, t), t)} ELSE {})
+      last == IF mine = <<>> THEN <<"", 0, 0>> ELSE mine[Len(mine)]
   IN \E c \in Cands :
-       LET g == IF enters = <<>> THEN 0 ELSE enters[1][2]
-           c2 == IF g = 0 THEN c ELSE EnterRun([c EXCEPT !.Q = @ \ {g}], t, g)
-       IN /\ Len(enters) <= 1
-          /\ (g # 0 => g \in 1 .. Len(M) /\ PoolMayEnter(c, t, g))
-          /\ c2.out = mine
-          /\ PcMatches(c2, t, ev.n)
-          /\ S' = Fin(c2)
+       \/ /\ c.out = mine
+          /\ PcMatches(c, t, ev.n)
+          /\ S' = Fin(c)
+       \/ /\ last[1] = "FuRunEnter"
+          /\ c.out = SubSeq(mine, 1, Len(mine) - 1)
+          /\ last[2] \in 1 .. Len(M)
+          /\ PoolMayEnter(c, t, last[2])
+          /\ LET c2 == EnterRun([c EXCEPT !.Q = @ \ {last[2]}], t, last[2]) IN
+               PcMatches(c2, t, ev.n) /\ S' = Fin(c2)
 
 \* an event at a site of the specification
 SiteEv(ev, t) ==
@@ -83,10 +87,17 @@ SiteEv(ev, t) ==
   /\ LET s1 == StepThread(S, t)
          \* a pool call entered during the step may also return within it (it hit no schedule point)
          Cands == {s1} \cup (IF PoolMayReturn(s1, t) THEN {Settle(Pop(s1, t), t)} ELSE {})
+         last == IF ev.r = <<>> THEN <<"", 0, 0>> ELSE ev.r[Len(ev.r)]
      IN \E s2 \in Cands :
-          /\ s2.out = ev.r
-          /\ PcMatches(s2, t, ev.n)
-          /\ S' = Fin(s2)
+          \/ /\ s2.out = ev.r
+             /\ PcMatches(s2, t, ev.n)
+             /\ S' = Fin(s2)
+          \/ /\ last[1] = "FuRunEnter"       \* the pool call entered during the step runs a queued future at once
+             /\ s2.out = SubSeq(ev.r, 1, Len(ev.r) - 1)
+             /\ last[2] \in 1 .. Len(M)
+             /\ PoolMayEnter(s2, t, last[2])
+             /\ LET s3 == EnterRun([s2 EXCEPT !.Q = @ \ {last[2]}], t, last[2]) IN
+                  PcMatches(s3, t, ev.n) /\ S' = Fin(s3)
 
 EnvEv(ev, t) ==
   IF S.K[t] # <<>> /\ Top(S, t).pc = "FutexBlocked"
